@@ -12,6 +12,7 @@ import (
 	"path"
 	"strings"
 	"sync"
+	"sync/atomic"
 	"time"
 
 	"github.com/q191201771/lal/pkg/hls"
@@ -305,7 +306,7 @@ func runSeq(r *vk.Run, c cfg, steps []step) {
 func main() {
 	r := vk.Start("C10", "fault_enumeration")
 	lalenv.Quiet()
-	r.Rule("one case = (ring configuration) x (frame sequence over {video key+boundary, video key, video, audio boundary, audio} x timestamp steps {0.4, 1.0, 1.3, 1.6, 11, -2} fragment durations) driving the real hls.Muxer; the invariants are evaluated after every file-system operation and with the last write torn to half. distinct_nontrivial = distinct (configuration, number of segments, number of playlist versions)")
+	r.Rule("one case = (ring configuration) x (frame sequence over {video key+boundary, video key, video, audio boundary, audio} x timestamp steps {0.4, 1.0, 1.3, 1.6, 9.7, 11, -2} fragment durations) driving the real hls.Muxer; the invariants are evaluated after every file-system operation and with the last write torn to half. distinct_nontrivial = distinct (configuration, number of segments, number of playlist versions)")
 	r.Assume("instrumented in-memory IFileSystemLayer (lib/fsim) installed through a verif-tagged setter; each operation is atomic, so 'after every operation' is every instant a reader or a crash can observe",
 		"the muxer is driven directly (frames from mpegts.Frame.Pack); the group/remuxer path on top of it is covered by C16/C06",
 		"MEDIA-SEQUENCE monotonicity is per muxer incarnation")
@@ -327,52 +328,92 @@ func main() {
 	cfgs = append(cfgs, cfg{2, 1, 2, true}, cfg{3, 0, 1, true})
 	kindsAV := []string{"vkb", "v", "a", "vk"}
 	kindsA := []string{"ab", "a"}
-	dts := []float64{0.4, 1.0, 1.3, 1.6, 11, -2}
+	dts := []float64{0.4, 1.0, 1.3, 1.6, 9.7, 11, -2}
 	maxLen := 4
 	if !r.Quick() {
-		maxLen = 6
+		maxLen = 5
 	}
 	type job struct {
 		c cfg
 		s []step
 	}
+	// Sequences are enumerated lazily: the prefixes of length <= 3 are the parallel jobs, each worker
+	// walks all extensions of its prefix depth-first (the full product does not fit in memory).
+	const prefixLen = 3
+	kindsOf := func(c cfg) []string {
+		if c.AudioOnly {
+			return kindsA
+		}
+		if r.Quick() {
+			return kindsAV[:3]
+		}
+		return kindsAV
+	}
+	extend := func(c cfg, cur []step, f func(next []step)) {
+		for _, k := range kindsOf(c) {
+			for _, d := range dts {
+				if len(cur) == 0 && d != 1.0 {
+					continue // the first frame's absolute time is irrelevant
+				}
+				if len(cur) >= 4 && (d == 0.4 || d == 11 || d == 9.7) && k != "vkb" && k != "ab" {
+					continue // thin out beyond four frames: keep the full product for the first four
+				}
+				f(append(append([]step{}, cur...), step{k, d}))
+			}
+		}
+	}
 	var jobs []job
 	for _, c := range cfgs {
-		kinds := kindsAV
-		if c.AudioOnly {
-			kinds = kindsA
-		} else if r.Quick() {
-			kinds = kindsAV[:3]
-		}
 		var gen func(cur []step)
 		gen = func(cur []step) {
-			if len(cur) > 0 {
-				jobs = append(jobs, job{c, append([]step{}, cur...)})
-			}
-			if len(cur) == maxLen {
+			if len(cur) == prefixLen || len(cur) == maxLen {
+				jobs = append(jobs, job{c, cur})
 				return
 			}
-			for _, k := range kinds {
-				for _, d := range dts {
-					if len(cur) == 0 && d != 1.0 {
-						continue // the first frame's absolute time is irrelevant
-					}
-					if len(cur) >= 4 && (d == 0.4 || d == 11) && k != "vkb" && k != "ab" {
-						continue // thin out beyond four frames: keep the full product for the first four
-					}
-					gen(append(cur, step{k, d}))
-				}
-			}
+			extend(c, cur, gen)
 		}
 		gen(nil)
 	}
-	r.Cov("sequences", len(jobs))
+	var nseq int64
+	var capped int32
 	r.Cov("max_sequence_length", maxLen)
 	r.Sample(replay{jobs[len(jobs)/2].c, jobs[len(jobs)/2].s})
 	vk.Par(len(jobs), 16, func(i int) {
-		if !r.OutOfTime() {
-			runSeq(r, jobs[i].c, jobs[i].s)
+		c := jobs[i].c
+		// the prefixes themselves (every shorter sequence is a case too): each is run by the job
+		// that is its first extension in enumeration order, i.e. here when the job's tail is all-first
+		var walk func(cur []step)
+		walk = func(cur []step) {
+			if r.OutOfTime() {
+				atomic.StoreInt32(&capped, 1)
+				return
+			}
+			runSeq(r, c, cur)
+			atomic.AddInt64(&nseq, 1)
+			if len(cur) == maxLen {
+				return
+			}
+			extend(c, cur, walk)
 		}
+		walk(jobs[i].s)
 	})
+	// sequences shorter than the prefix length
+	for _, c := range cfgs {
+		var short func(cur []step)
+		short = func(cur []step) {
+			if len(cur) > 0 && len(cur) < prefixLen && len(cur) < maxLen {
+				runSeq(r, c, cur)
+				atomic.AddInt64(&nseq, 1)
+			}
+			if len(cur)+1 < prefixLen && len(cur)+1 < maxLen {
+				extend(c, cur, short)
+			}
+		}
+		short(nil)
+	}
+	r.Cov("sequences", nseq)
+	if capped != 0 {
+		r.NotExhaustive("internal time budget hit before every sequence of the bound was run")
+	}
 	r.Finish()
 }
